@@ -7,18 +7,18 @@ From Verif Require Import Common Channels Channels_proofs.
 From Verif Require Gen_Placement Placement Placement_proofs.
 Open Scope N_scope.
 
-(* the inbound channels of a task as the placement model sees them: position as name,
-   TCP-addressed or not *)
+(* the inbound channels of a task as the placement model sees them: position as name; a port
+   is needed for a TCP-addressed channel without a target of its own *)
 Fixpoint place_chans_from (k : nat) (ins : list inbound) : list Placement.chan :=
   match ins with
   | [] => []
-  | c :: r => Placement.mkChan (N.of_nat k) (negb (i_ipc c)) :: place_chans_from (S k) r
+  | c :: r => Placement.mkChan (N.of_nat k) (negb (i_ipc c) && negb (nonempty (i_target c))) :: place_chans_from (S k) r
   end.
 Definition place_chans (ins : list inbound) : list Placement.chan := place_chans_from 0 ins.
 
 (* the oracle hands every TCP channel the port the loop allocated for it *)
 Definition alloc_agrees (t : task) (dyn : list (N * N)) : Prop :=
-  forall i c, nth_error (t_in t) i = Some c -> i_ipc c = false ->
+  forall i c, nth_error (t_in t) i = Some c -> i_ipc c = false -> i_target c = [] ->
               assocN (N.of_nat i) dyn = Some (fst (t_alloc t i)).
 
 Lemma assocN_In {V} k (l : list (N * V)) v : assocN k l = Some v -> In (k, v) l.
@@ -32,12 +32,12 @@ Qed.
 Lemma port_from_offer t pr pr' dyn i c :
   Placement_proofs.pvalid pr ->
   Placement.alloc_dyn (place_chans (t_in t)) pr = Placement.AOk pr' dyn ->
-  alloc_agrees t dyn -> nth_error (t_in t) i = Some c -> i_ipc c = false ->
+  alloc_agrees t dyn -> nth_error (t_in t) i = Some c -> i_ipc c = false -> i_target c = [] ->
   Placement_proofs.pmem (fst (t_alloc t i)) pr = true /\ Gen_Placement.data_port_floor < fst (t_alloc t i).
 Proof.
-  intros Hv Ha Ag Hc Tcp.
+  intros Hv Ha Ag Hc Tcp Tg.
   destruct (Placement_proofs.alloc_dyn_spec _ _ _ _ Hv Ha) as (_ & _ & _ & Hin & _).
-  apply Hin. specialize (Ag i c Hc Tcp). apply assocN_In in Ag.
+  apply Hin. specialize (Ag i c Hc Tcp Tg). apply assocN_In in Ag.
   change (fst (t_alloc t i)) with (snd (N.of_nat i, fst (t_alloc t i))). apply in_map. exact Ag.
 Qed.
 
@@ -46,12 +46,13 @@ Lemma ports_distinct t pr pr' dyn i j c d :
   Placement_proofs.pvalid pr ->
   Placement.alloc_dyn (place_chans (t_in t)) pr = Placement.AOk pr' dyn ->
   alloc_agrees t dyn ->
-  nth_error (t_in t) i = Some c -> i_ipc c = false -> nth_error (t_in t) j = Some d -> i_ipc d = false ->
+  nth_error (t_in t) i = Some c -> i_ipc c = false -> i_target c = [] ->
+  nth_error (t_in t) j = Some d -> i_ipc d = false -> i_target d = [] ->
   i <> j -> fst (t_alloc t i) <> fst (t_alloc t j).
 Proof.
-  intros Hv Ha Ag Hc Tc Hd Td Ne E.
+  intros Hv Ha Ag Hc Tc Gc Hd Td Gd Ne E.
   destruct (Placement_proofs.alloc_dyn_spec _ _ _ _ Hv Ha) as (_ & _ & ND & _ & _).
-  pose proof (assocN_In _ _ _ (Ag i c Hc Tc)) as I1. pose proof (assocN_In _ _ _ (Ag j d Hd Td)) as I2.
+  pose proof (assocN_In _ _ _ (Ag i c Hc Tc Gc)) as I1. pose proof (assocN_In _ _ _ (Ag j d Hd Td Gd)) as I2.
   rewrite E in I1.
   assert (X : forall (l : list (N * N)) a b v, NoDup (map snd l) -> In (a, v) l -> In (b, v) l -> a = b).
   { induction l as [|[k0 v0] l IH]; intros a b v N1 Ha' Hb'; [contradiction|].
@@ -75,7 +76,7 @@ Lemma bind_told_port_from_offer tasks ps jb b prb i c pr pr' dyn :
 Proof.
   intros H Hb Hp C Nb Hc Tg Tcp Hv Ha Ag. exists (fst (t_alloc b i)). split.
   - rewrite (bind_told tasks ps jb b prb i c H Hb Hp C Nb Hc Tg). unfold bound_addr. rewrite Tcp. reflexivity.
-  - apply (port_from_offer b pr pr' dyn i c Hv Ha Ag Hc Tcp).
+  - apply (port_from_offer b pr pr' dyn i c Hv Ha Ag Hc Tcp Tg).
 Qed.
 
 (* the hypotheses are satisfiable: offer with ports 9000-9002, channels tcp, ipc, tcp *)
@@ -91,6 +92,6 @@ Lemma pf_nonvacuous :
 Proof.
   eexists. split; [vm_compute; reflexivity|]. split.
   - cbn. repeat constructor. unfold Placement_proofs.rvalid. cbn. lia.
-  - intros [|[|[|i]]] c H T; cbn in H; inversion H; subst; try discriminate; try reflexivity.
+  - intros [|[|[|i]]] c H T _; cbn in H; inversion H; subst; try discriminate; try reflexivity.
     destruct i; discriminate.
 Qed.
